@@ -219,6 +219,10 @@ def gen_interest_param(rng):
     p.forwarding_hint = [name_form(rng, h, one_shot=False)[0] for h in hints]
     d.update(can_be_prefix=bool(p.can_be_prefix), must_be_fresh=bool(p.must_be_fresh), nonce=p.nonce, lifetime=p.lifetime,
              hop_limit=p.hop_limit, fwd_hint=hints)
+    if rng.random() < 0.3:
+        # the keyword front-end: the same parameters given as a dictionary (what express_interest(**kwargs) does), MetaInfo likewise
+        p = InterestParam.from_dict({'can_be_prefix': p.can_be_prefix, 'must_be_fresh': p.must_be_fresh, 'nonce': p.nonce, 'lifetime': p.lifetime,
+                                     'hop_limit': p.hop_limit, 'forwarding_hint': p.forwarding_hint, 'unrelated_keyword': 1})
     return p, d
 
 
@@ -266,6 +270,8 @@ def gen_meta_info(rng):
     fb = rng.choice([None, None, None, b'', rc.comp(0x32, rc.enc_nni(rng.choice([0, 1, 255, 256, 70000]))),
                      rc.comp(8, b'last'), gen.rand_bytes(rng, rng.randint(1, 10))])
     m = MetaInfo(content_type=ct, freshness_period=fp, final_block_id=fb)
+    if rng.random() < 0.3:
+        m = MetaInfo.from_dict({'content_type': ct, 'freshness_period': fp, 'final_block_id': fb, 'unrelated_keyword': 1})
     return m, {'has_meta': True, 'content_type': ct, 'freshness': fp, 'final_block': fb}
 
 
